@@ -71,7 +71,11 @@ async def apply(
     # A patch that changed nothing (the version is the same as before) brings no event:
     # do not rely on it, sleep & touch as if there was no patch.
     seen_version = body.get('metadata', {}).get('resourceVersion')
-    changed = bool(patch) and (resource_version is None or resource_version != seen_version)
+    # No version and nothing left over means that no request was sent at all (e.g. only
+    # transformation functions that had nothing to change): no event will follow either.
+    unknown = resource_version is None and remaining_patch is not None  # rejected: newer exists
+    changed = bool(patch) and (
+        unknown or (resource_version is not None and resource_version != seen_version))
     applied = False
     if delay and changed:
         logger.debug(f"Sleeping was skipped because of the patch, {delay} seconds left.")
